@@ -69,6 +69,8 @@ type Outcome struct {
 	Err       bool       `json:"err"`
 	Panic     string     `json:"panic,omitempty"`
 	Stage     string     `json:"stage,omitempty"`
+	RespUsed  bool       `json:"-"`
+	RespGot   string     `json:"-"` // type of the message the outstanding request's Result() returned ("" = none)
 }
 
 type Failure struct {
@@ -242,8 +244,11 @@ func reencode(env *remote.Envelope) (*remote.Envelope, error) {
 	return out, nil
 }
 
+const respID = "response/live"
+
 func (r *rig) run(c *Case, intern bool) Outcome {
 	var envs []*remote.Envelope
+	var resp *actor.Response
 	if c.Mode == "roundtrip" {
 		msgs := make([]remote.VerifMsg, len(c.Batch))
 		for i, el := range c.Batch {
@@ -267,6 +272,15 @@ func (r *rig) run(c *Case, intern bool) Outcome {
 		for _, ce := range c.Envs {
 			env := &remote.Envelope{TypeNames: ce.TypeNames}
 			for _, t := range ce.Targets {
+				if t.I == respID {
+					// the response process of an outstanding request is registered like any other process and can be
+					// addressed from the network; its owner collects the result a moment later
+					if resp == nil {
+						resp = r.e.Request(actor.NewPID(r.e.Address(), "nobody/0"), &actor.Ping{}, 300*time.Millisecond)
+					}
+					env.Targets = append(env.Targets, resp.PID())
+					continue
+				}
 				env.Targets = append(env.Targets, toPID(t, false))
 			}
 			for _, s := range ce.Senders {
@@ -290,8 +304,31 @@ func (r *rig) run(c *Case, intern bool) Outcome {
 		}
 		wire = append(wire, w)
 	}
+	collected := make(chan string, 1)
+	expectResp := false
+	for _, d := range c.Delivered {
+		expectResp = expectResp || d.Target.I == respID
+	}
+	if resp != nil && !expectResp {
+		collected <- "" // nothing is due: the owner is still waiting when the stream ends
+	} else if resp != nil {
+		go func() {
+			time.Sleep(3 * time.Millisecond)
+			v, err := resp.Result()
+			if err != nil {
+				collected <- ""
+				return
+			}
+			t, _ := describe(v)
+			collected <- t
+		}()
+	}
 	err, p := remote.VerifDecode(r.e, wire)
 	out := Outcome{Delivered: r.take(), Err: err != nil}
+	if resp != nil {
+		out.RespGot = <-collected
+		out.RespUsed = true
+	}
 	if p != nil {
 		out.Panic = fmt.Sprint(p)
 		out.Stage = "reader"
@@ -305,6 +342,24 @@ func same(c *Case, got Outcome) string {
 	}
 	if got.Err != c.Err {
 		return fmt.Sprintf("stream error = %v, expected %v", got.Err, c.Err)
+	}
+	if got.RespUsed {
+		// deliveries to the response process are seen through Result(): the first one addressed to it
+		var rest []Delivery
+		first := ""
+		for _, d := range c.Delivered {
+			if d.Target.I == respID {
+				if first == "" {
+					first = d.Type
+				}
+				continue
+			}
+			rest = append(rest, d)
+		}
+		if got.RespGot != first {
+			return fmt.Sprintf("the outstanding request's Result() returned a message of type %q, expected %q", got.RespGot, first)
+		}
+		c = &Case{Err: c.Err, Delivered: rest}
 	}
 	if len(got.Delivered) != len(c.Delivered) {
 		return fmt.Sprintf("%d deliveries, expected %d", len(got.Delivered), len(c.Delivered))
